@@ -372,6 +372,36 @@ func truthAtom(e *flow.Engine, at flow.Site, x ast.Expr, atom func(flow.Site, as
 	}(x)
 }
 
+// typeBytePoint: the point of the root function through which the type byte
+// (the call of objectEncoder.encodeType) is written - the call itself or the
+// call of the helper that holds it.
+func typeBytePoint(e *flow.Engine, g *cfgq.Graph, fn *core.Fn) *cfgq.Point {
+	var typePt *cfgq.Point
+	e.Walk(g, fn.Decl.Body, func(s flow.Site, n ast.Node) {
+		x, ok := n.(*ast.CallExpr)
+		if !ok || typePt != nil {
+			return
+		}
+		f := core.CalleeFunc(s.G.Info, x)
+		if f == nil || f.Name() != "encodeType" {
+			return
+		}
+		sig, _ := f.Type().(*types.Signature)
+		if sig == nil || sig.Recv() == nil {
+			return
+		}
+		if _, isIface := sig.Recv().Type().Underlying().(*types.Interface); !isIface {
+			return
+		}
+		p := s.At
+		if len(s.Up) > 0 {
+			p = s.Up[len(s.Up)-1].At
+		}
+		typePt = &p
+	})
+	return typePt
+}
+
 // evalRole evaluates a boolean role (the canonical rendering of package roles:
 // `(a||b)`, `(a&&b)`, `!a`, atoms) under a table of atom values.
 func evalRole(role string, table map[string]bool) (bool, bool) {
@@ -444,7 +474,8 @@ func encodeObjectRules(c *core.Ctx, fn *core.Fn) {
 	var unknownValues []string
 	isParam := func(s flow.Site, x ast.Expr, p *ast.Ident) bool {
 		ro := rr.role(s, x)
-		if unknownRole(ro) {
+		if unknownRole(ro) || strings.Contains(ro, "var@") {
+			// (var@: a variable whose address escapes - its value is not followed)
 			unknownValues = append(unknownValues, ro)
 		}
 		return ro == pname[p]
@@ -617,13 +648,7 @@ func encodeObjectRules(c *core.Ctx, fn *core.Fn) {
 		// a helper must be called unconditionally before the type byte
 		if len(dc.Up) > 0 {
 			top := dc.Up[len(dc.Up)-1]
-			var typePt *cfgq.Point
-			e.Walk(g, fn.Decl.Body, func(s flow.Site, n ast.Node) {
-				if x, ok := n.(*ast.CallExpr); ok && len(s.Up) == 0 && pat.Expr("_o.encodeType(_enc)").Match(info, x, nil) != nil {
-					p := s.At
-					typePt = &p
-				}
-			})
+			typePt := typeBytePoint(e, g, fn)
 			if typePt == nil {
 				okDB = false
 				why = append(why, "cannot find the type byte write")
@@ -650,11 +675,21 @@ func encodeObjectRules(c *core.Ctx, fn *core.Fn) {
 	relevantUnknown, unknownValues = nil, nil
 	mentionRe = regexp.MustCompile(`\bexpireat\b`)
 	exCalls := callsOf("EncodeExpiry")
-	if len(exCalls) != 1 {
-		c.Undecidedf("R2.grammar", "EncodeObject/expiry", fn.Decl.Pos(), "expected one EncodeExpiry call reachable from EncodeObject, found %d", len(exCalls))
+	exSame := len(exCalls) > 0
+	for _, x := range exCalls {
+		// several writes (one per arm of a chain, say) in one function instance are one event
+		if x.G != exCalls[0].G || len(x.Up) != len(exCalls[0].Up) || len(x.Up) > 0 && x.Up[0].Call != exCalls[0].Up[0].Call {
+			exSame = false
+		}
+	}
+	if !exSame {
+		c.Undecidedf("R2.grammar", "EncodeObject/expiry", fn.Decl.Pos(), "expected the EncodeExpiry call(s) reachable from EncodeObject in one function, found %d", len(exCalls))
 	} else {
 		ec := exCalls[0]
-		okE := len(ec.Call.Args) == 1 && isParam(ec.Site, ec.Call.Args[0], ps[2])
+		okE := true
+		for _, x := range exCalls {
+			okE = okE && len(x.Call.Args) == 1 && isParam(x.Site, x.Call.Args[0], ps[2])
+		}
 		nonZero := func(f cfgq.Fact) bool {
 			be, ok := ast.Unparen(flow.Positive(f)).(*ast.BinaryExpr)
 			if !ok || be.Op != token.NEQ && be.Op != token.GTR {
@@ -667,7 +702,68 @@ func encodeObjectRules(c *core.Ctx, fn *core.Fn) {
 			id, isId := ast.Unparen(be.X).(*ast.Ident)
 			return isId && core.ObjOf(info, id) == info.Defs[ps[2]]
 		}
-		okE = okE && e.Under(ec.Site, nonZero)
+		_ = nonZero
+		// not written when the expiry is zero: under `expireat == 0` the call is
+		// unreachable - in the function that holds it, or already in a caller
+		zeroAtom := func(at flow.Site, x ast.Expr) (bool, bool) {
+			be, ok := ast.Unparen(x).(*ast.BinaryExpr)
+			if !ok {
+				return evalRole(rr.role(at, x), map[string]bool{"(=0==expireat)": true, "(=0!=expireat)": false, "(=0<expireat)": false})
+			}
+			for _, pr := range [][2]ast.Expr{{be.X, be.Y}, {be.Y, be.X}} {
+				if v, isC := core.IntConst(at.G.Info, pr[1]); isC && v == 0 && isParam(at, pr[0], ps[2]) {
+					switch be.Op {
+					case token.NEQ, token.GTR, token.LSS:
+						return false, true
+					case token.EQL, token.LEQ, token.GEQ:
+						if be.Op == token.EQL || pr[0] == be.X && be.Op == token.LEQ || pr[0] == be.Y && be.Op == token.GEQ {
+							return true, true
+						}
+					}
+				}
+			}
+			return false, false
+		}
+		reachableWhenZero := true
+		{
+			targets := []ast.Node{}
+			for _, x := range exCalls {
+				targets = append(targets, x.Call)
+			}
+			lg, lup := ec.G, ec.Up
+			for {
+				tns := targets
+				hit := func(n ast.Node) bool {
+					for _, cl := range cfgq.ExecCalls(n) {
+						for _, tn := range tns {
+							if ast.Node(cl) == tn {
+								return true
+							}
+						}
+					}
+					return false
+				}
+				if w := lg.Path(cfgq.Query{From: lg.Entry(), Target: hit, AvoidEdge: infeasibleAt(e, lg, lup, zeroAtom)}); w == nil {
+					reachableWhenZero = false
+					break
+				}
+				if len(lup) == 0 {
+					break
+				}
+				targets, lg, lup = []ast.Node{lup[0].Call}, lup[0].G, lup[1:]
+			}
+		}
+		okE = okE && !reachableWhenZero
+		// a helper that holds the write must be called on every path before the type byte
+		if len(ec.Up) > 0 {
+			if typePt := typeBytePoint(e, g, fn); typePt == nil {
+				okE = false
+			} else {
+				hn := ec.Up[len(ec.Up)-1].At.Node()
+				dom, _ := g.Dominated(*typePt, func(n ast.Node) bool { return n == hn })
+				okE = okE && dom
+			}
+		}
 		// and it is written whenever the expiry is non-zero: under `expireat != 0` no
 		// successful exit of the function holding the call avoids it
 		gg := ec.G
@@ -688,8 +784,10 @@ func encodeObjectRules(c *core.Ctx, fn *core.Fn) {
 		}
 		isEx := func(n ast.Node) bool {
 			for _, cl := range cfgq.ExecCalls(n) {
-				if cl == ec.Call {
-					return true
+				for _, x := range exCalls {
+					if cl == x.Call {
+						return true
+					}
 				}
 			}
 			return false
@@ -706,12 +804,17 @@ func encodeObjectRules(c *core.Ctx, fn *core.Fn) {
 	}
 	// ---- key
 	okK := false
+	unknownValues = nil
 	for _, kc := range e.Calls(g, fn.Decl.Body, func(f *types.Func) bool { return f.Name() == "EncodeString" }) {
 		if len(kc.Call.Args) == 1 && isParam(kc.Site, kc.Call.Args[0], ps[1]) {
 			okK = true
 		}
 	}
-	c.Check("R2.grammar", "EncodeObject/key", fn.Decl.Pos(), okK, "the key written is the key passed in")
+	if !okK && len(unknownValues) > 0 {
+		c.Undecidedf("R2.grammar", "EncodeObject/key", fn.Decl.Pos(), "cannot tell what is written as the key: %s", strings.Join(unknownValues, "; "))
+	} else {
+		c.Check("R2.grammar", "EncodeObject/key", fn.Decl.Pos(), okK, "the key written is the key passed in")
+	}
 }
 
 // linkedEncoder checks the opcodes emitted by the module-cache encoder.
